@@ -19,6 +19,11 @@ CLAIMS = {
   text="Machine-checked proofs over the line state machine model, for every configuration: outside a diff (before the first construct or in commit metadata) a line that begins with none of the construct-opening markers is emitted unchanged and leaves the machine where it is (C04_passthrough_line); a block of such lines extends the rendered history by exactly those lines, in order (C04_passthrough_block). On the real binary raw bytes are compared (no terminal decoding): pure text streams with embedded SGR sequences, CR variants, tabs and Unicode come out byte-identical up to the three permitted normalisations; text before diffs and commit messages between commits appear unchanged, whole-line and in order, under 18 option sets.",
   note="Trusted: Coq kernel; harness; the model does not distinguish raw from stripped lines (the byte-level claim, incl. colours, is decided on the implementation); blame-like, JSON-like and grep-like lines are construct openers and excluded from the generated text. No axioms.",
   design="§6 C04"),
+ "C06": dict(
+  technique="Coq proof (tokens partition the line; row-by-row table = recursive specification; read-back is a valid edit script given the common first token; kept tokens are common) + exhaustive white-box correspondence of tokenize / Alignment::operations + clause oracle on infer_edits",
+  text="Machine-checked proofs: the tokens of a line concatenate to the line and begin with the empty token (C06_tokenize_partition); the table the code fills row by row equals, cell by cell, the recursive specification of the gap-open distance with candidate order Insertion/Deletion/NoOp and first-minimum tie-breaking (C06_table_is_specification); for all token lists with a common first token the operations read back — with the code's stop rule 'parent index 0' — are a valid edit script (C06_operations_valid), so deleting the tokens marked deleted from the old line and those marked inserted from the new line leaves the same tokens (C06_emphasis_sound). Tie: tokenize and Alignment::operations through the hook driver equal the extracted model on all pairs of token sequences up to length 4/5 over {a, b, space} and on random realistic lines. Oracle on the implementation's infer_edits (model-free): sections concatenate to the line, removing emphasised sections from a pair leaves equal text, unpaired lines and identical pairs carry no emphasis, pairs never cross, threshold 1 pairs line i with line i, threshold 0 pairs only whitespace-only differences, one replaced run gives one emphasised stretch.",
+  note="Trusted: Coq kernel; hook driver; \w of the regex crate = default_is_word on the generator's alphabet (checked by correspondence); annotate/infer_edits (section building, whitespace coalescing, distance thresholds) are decided on the implementation by the oracle, not by a theorem. No axioms.",
+  design="§6 C06"),
  "C08": dict(
   technique="Coq proof over the escape-sequence parser table regenerated from the linked crate (plain text kept, SGR sequences invisible and state-restoring, strip(colourise t) = t) + white-box strip correspondence + bytewise coloured-vs-plain output and moved-line rendition oracle",
   text="Machine-checked proofs over a model of what ansi::strip_ansi_codes keeps, driven by the transition table of anstyle-parse that the translator dumps from the hook-enabled binary on every run (GenVte.v): valid UTF-8 text without ESC is kept byte for byte (C08_plain_text_kept), an SGR sequence contributes no text and returns the parser to the ground state (C08_sgr_invisible), hence for every text and every insertion of SGR sequences at character boundaries the stripped line is the plain text (C08_strip_colourise) — delta parses, measures, pairs and highlights the same line whether or not git coloured it. Tie: strip_ansi_codes through the hook driver equals the extracted model on coloured lines and on malformed / ignored / aborted sequences. Oracle on the binary: stdout for a diff coloured as git does with its default palette is byte-identical to stdout for the plain diff under 12 modes; changed lines in random non-default SGR renditions (moved-line colours) are shown in exactly the input's rendition, or in the style map-styles assigns.",
